@@ -734,3 +734,12 @@ func (it *Interp) SliceContent(v Value) ([]*Term, *Term, bool) {
 	}
 	return bs, ln, true
 }
+
+// ConstBytes builds a byte slice of constants (driver input).
+func (it *Interp) ConstBytes(bs []int64) Value {
+	o := it.NewArrayObject(types.Typ[types.Uint8], len(bs), "const-bytes", true)
+	for i, b := range bs {
+		o.Root.Kids[i].Val = KInt{big.NewInt(b)}
+	}
+	return SliceV{Arr: o.Root, Lo: 0, Len: TInt(int64(len(bs))), Cap: len(bs)}
+}
